@@ -30,6 +30,11 @@ type H struct {
 	// handler subscribes a new registration of handler Arms-1 - a one-shot
 	// handler arming its successor from inside the publish that fires it.
 	Arms int `json:"arms,omitempty"`
+	// Cancels (synchronous, not Once; sequential histories without any
+	// asynchronous handler): when it handles an event published with a
+	// context of its own (Step.UseCtx) it cancels that context, so the
+	// handlers after it in subscription order are skipped for this publish.
+	Cancels bool `json:"cancels,omitempty"`
 }
 
 // Step of a sequential history.
@@ -80,11 +85,17 @@ type calls struct {
 // armed runs the arming callback after recording the call.
 type armed struct {
 	*calls
-	arm func()
+	arm     func()
+	cancels bool
 }
 
 func (a *armed) hit(h, id int) {
 	a.calls.hit(h, id)
+	if a.cancels {
+		if f, ok := pubCancels.Load(id); ok {
+			f.(context.CancelFunc)()
+		}
+	}
 	if a.arm != nil {
 		a.arm()
 	}
@@ -98,7 +109,7 @@ func (c *calls) hit(h, id int) {
 }
 
 func subscribe(bus *eventbus.EventBus, src *busmodel.OptSource, h H, idx int, c0 *calls, arm ...func()) error {
-	c := &armed{calls: c0}
+	c := &armed{calls: c0, cancels: h.Cancels && !h.Once && !h.Async}
 	if len(arm) > 0 {
 		c.arm = arm[0]
 	}
@@ -134,13 +145,21 @@ var cancelledCtx = func() context.Context {
 
 type vkey struct{}
 
+// pubCancels: event id -> cancel function of the context it was published
+// with (UseCtx publishes), for handlers that cancel it mid-dispatch.
+var pubCancels sync.Map
+
 func publish(bus *eventbus.EventBus, t, id int, cancelled, useCtx bool) {
 	var ctx context.Context
 	switch {
 	case cancelled:
 		ctx = cancelledCtx
 	case useCtx:
-		ctx = context.WithValue(context.Background(), vkey{}, id)
+		var cancel context.CancelFunc
+		ctx, cancel = context.WithCancel(context.WithValue(context.Background(), vkey{}, id))
+		// never cancelled by the publisher: asynchronous handlers may still
+		// be waiting to run when Publish returns
+		pubCancels.Store(id, cancel)
 	}
 	switch t {
 	case 0:
@@ -203,7 +222,7 @@ func RunSeq(c *SeqCase) *vkit.Outcome {
 			}
 		}
 	}
-	armedAny := false
+	armedAny, midCancel := false, false
 	for si, s := range c.Steps {
 		switch s.K {
 		case "sub":
@@ -218,9 +237,10 @@ func RunSeq(c *SeqCase) *vkit.Outcome {
 			bus.Wait()
 			var keep []*mreg
 			var newRegs []int // handlers armed by Once handlers fired in this publish
+			cancelledNow := false // the publish context was cancelled by a handler of this publish
 			for _, r := range regs[s.T] {
 				h := c.Handlers[r.h]
-				if s.Cancelled || !accepts(h.Filter, s.ID) {
+				if s.Cancelled || cancelledNow || !accepts(h.Filter, s.ID) {
 					if h.Once {
 						sawIneligible[r.h] = true
 					}
@@ -228,6 +248,10 @@ func RunSeq(c *SeqCase) *vkit.Outcome {
 					continue
 				}
 				want[r.h] = append(want[r.h], s.ID)
+				if h.Cancels && !h.Once && !h.Async && s.UseCtx {
+					cancelledNow = true
+					midCancel = true
+				}
 				if h.Once {
 					if sawIneligible[r.h] {
 						o.Nontrivial = true
@@ -281,6 +305,9 @@ func RunSeq(c *SeqCase) *vkit.Outcome {
 	}
 	if armedAny {
 		o.Class("once_handler_subscribed_its_successor_while_running")
+	}
+	if midCancel {
+		o.Class("publish_context_cancelled_by_a_handler_during_dispatch")
 	}
 	if cl.armErr != nil {
 		o.Failf("", "Subscribe from inside a Once handler failed: %v", cl.armErr)
